@@ -841,8 +841,62 @@ def case_generic_pytree_attr(ctx, i, kind):
                              transformed=[np.asarray(at.value).tolist(), np.asarray(bt.value).tolist()]))
 
 
+def case_long_list_attr(ctx, i, kind):
+  """A list / tuple / int-keyed dict attribute with MANY entries (more than ten: the string forms of the positions no longer sort
+  like the positions): every entry keeps its own value under every transform, also for a function that only reads."""
+  import jax.numpy as jnp
+  from flax import nnx
+  n = [3, 11, 12, 25][(i // 6) % 4]
+  cont = ['list', 'tuple', 'int_dict'][(i // 24) % 3]
+  read_only = (i // 72) % 2 == 1
+
+  class M(nnx.Module):
+    def __init__(self):
+      ps = [nnx.Param(jnp.asarray(float(k + 1))) for k in range(n)]
+      self.ws = ps if cont == 'list' else tuple(ps) if cont == 'tuple' else {k: p for k, p in enumerate(ps)}
+
+  def f(m, x):
+    tot = jnp.zeros(())
+    for k in range(n):
+      w = m.ws[k]
+      if not read_only:
+        w.value = w.value + x * (k + 1)
+      tot = tot + w.value * (k + 1)
+    return tot
+
+  desc = dict(transform=kind, entries=n, container=cont, read_only=read_only)
+  with ctx.case('long_list_attr', i, desc, nontrivial=n > 10):
+    me, mt = M(), M()
+    x = jnp.asarray(0.5)
+    if kind == 'jit':
+      g = nnx.jit(f)
+    elif kind == 'remat':
+      g = nnx.remat(f)
+    elif kind == 'cond':
+      g = lambda m, x: nnx.cond(x > 0, f, lambda m, x: jnp.zeros(()), m, x)
+    elif kind == 'switch':
+      g = lambda m, x: nnx.switch(jnp.asarray(1), [lambda m, x: jnp.zeros(()), f], m, x)
+    elif kind == 'fori_loop':
+      def g(m, x):
+        nnx.fori_loop(0, 1, lambda j, mx: (f(mx[0], mx[1]), mx)[1], (m, x))
+        return None
+    else:
+      def g(m, x):
+        nnx.while_loop(lambda c: c[2] < 1, lambda c: (f(c[0], c[1]), (c[0], c[1], c[2] + 1))[1], (m, x, jnp.asarray(0)))
+        return None
+    oe, ot = f(me, x), g(mt, x)
+    ctx.op('nnx.%s(module with a %d-entry %s attribute)' % (kind, n, cont))
+    if ot is not None:
+      ctx.check(bool(np.allclose(np.asarray(oe), np.asarray(ot))), 'long_list_attr:output', lambda: dict(case=desc, eager=float(oe), transformed=float(ot)))
+    ve = [float(me.ws[k].value) for k in range(n)]
+    vt = [float(mt.ws[k].value) for k in range(n)]
+    ctx.check(np.allclose(ve, vt), 'long_list_attr:entries_permuted', lambda: dict(case=desc, eager=ve, transformed=vt))
+
+
 def run(ctx):
   from flax.nnx import graph
+  for i, kind in ctx.items(['jit', 'remat', 'cond', 'switch', 'fori_loop', 'while_loop'] * 24, 'long_list_attr'):
+    case_long_list_attr(ctx, i, kind)
   for i, kind in ctx.items(['jit', 'remat', 'cond', 'switch', 'fori_loop', 'while_loop', 'cached_partial'] * 8, 'generic_pytree_attr'):
     case_generic_pytree_attr(ctx, i, kind)
   for i in ctx.indices(6, 'cached_partial_plain_fn'):
